@@ -66,7 +66,14 @@ func keyed(err error) (string, string) {
 var crashKey = dsig.NewES256Key()
 
 // runPipeline executes the whole life-cycle on one input; every call is total.
+// crashCur, when set, names a file that always holds the input being processed: if the process is aborted
+// (a fatal runtime error cannot be recovered) the supervisor finds there what did it
+var crashCur string
+
 func runPipeline(data []byte) []crashStep {
+	if crashCur != "" {
+		_ = os.WriteFile(crashCur, data, 0o644)
+	}
 	var steps []crashStep
 	var env *gobl.Envelope
 	call := func(op string, f func() error) bool {
@@ -259,6 +266,8 @@ func mutate(mut string, old any) (any, bool, bool) { // value, delete?, applicab
 		return strings.Repeat("9", 40), false, true
 	case "tiny":
 		return "0." + strings.Repeat("0", 30) + "1", false, true
+	case "tiny64":
+		return "0." + strings.Repeat("0", 63) + "1", false, true
 	case "negative":
 		if s, ok := old.(string); ok && len(s) > 0 && s[0] != '-' {
 			return "-" + s, false, true
@@ -293,6 +302,16 @@ func mutate(mut string, old any) (any, bool, bool) { // value, delete?, applicab
 type mutant struct {
 	mut, path string
 	data      []byte
+	bulkOnly  bool // run in a separate process only (a runaway recursion cannot be recovered in-process)
+}
+
+func registeredSchemas() []string {
+	ids := []string{}
+	for _, id := range schema.Types() {
+		ids = append(ids, id.String())
+	}
+	sort.Strings(ids)
+	return ids
 }
 
 func mutants(root map[string]any, plan []planItem) []mutant {
@@ -300,7 +319,7 @@ func mutants(root map[string]any, plan []planItem) []mutant {
 	emit := func(mut, path string) {
 		b, err := json.Marshal(root)
 		if err == nil {
-			out = append(out, mutant{mut, path, b})
+			out = append(out, mutant{mut: mut, path: path, data: b})
 		}
 	}
 	var walk func(x any, key, path string, set func(any), del func())
@@ -492,6 +511,39 @@ func mutants(root map[string]any, plan []planItem) []mutant {
 			}
 		}
 	}
+	// (e) the document type swapped for every other registered type; (f) an undefined currency added to every
+	// object that has none (document references, preceding rows, items ...)
+	var swap func(x any, path string)
+	swap = func(x any, path string) {
+		switch v := x.(type) {
+		case map[string]any:
+			if old, ok := v["$schema"].(string); ok {
+				for _, id := range registeredSchemas() {
+					if id != old {
+						v["$schema"] = id
+						b, err := json.Marshal(root)
+						if err == nil {
+							out = append(out, mutant{mut: "schema-swap", path: path + "/$schema=" + id, data: b, bulkOnly: true})
+						}
+					}
+				}
+				v["$schema"] = old
+			}
+			if _, has := v["currency"]; !has && path != "" {
+				v["currency"] = "ZZZ"
+				emit("add-unknown-currency", path+"/currency")
+				delete(v, "currency")
+			}
+			for k, y := range v {
+				swap(y, path+"/"+k)
+			}
+		case []any:
+			for i, y := range v {
+				swap(y, fmt.Sprintf("%s/%d", path, i))
+			}
+		}
+	}
+	swap(root, "")
 	// (c) envelopes with empty entries in their signature list
 	if s, _ := root["$schema"].(string); strings.HasSuffix(s, "/envelope") {
 		old, had := root["sigs"]
@@ -559,7 +611,8 @@ func crashRun(repo, planFile string, seed int64, capPerDoc, nbytes int, bulkBin,
 			r.Shuffle(len(ms), func(i, j int) { ms[i], ms[j] = ms[j], ms[i] })
 			// keep a share of each family
 			var sel []mutant
-			quota := map[string]int{"pair": capPerDoc / 3, "dup-strip": capPerDoc / 3, "empty-signature": 3, "dup-vary": 1000}
+			quota := map[string]int{"pair": capPerDoc / 3, "dup-strip": capPerDoc / 3, "empty-signature": 3, "dup-vary": 1000,
+				"schema-swap": 12, "add-unknown-currency": capPerDoc / 3}
 			n := 0
 			for _, m := range ms {
 				if q, ok := quota[m.mut]; ok {
@@ -576,6 +629,11 @@ func crashRun(repo, planFile string, seed int64, capPerDoc, nbytes int, bulkBin,
 		}
 		for i, m := range ms {
 			m := m
+			if m.bulkOnly {
+				bulkInputs = append(bulkInputs, m)
+				bulkSrc = append(bulkSrc, name)
+				continue
+			}
 			w.Emit(crashEvent{K: "pipeline", Src: name, Mut: m.mut, Path: m.path, Steps: withWatchdog(func() []crashStep { return runPipeline(m.data) })})
 			if i%9 == 0 || m.mut == "empty-signature" || m.mut == "pair" {
 				bulkInputs = append(bulkInputs, m)
@@ -772,7 +830,23 @@ func init() {
 		nb := fs.Int("bytes", 2000, "arbitrary byte inputs")
 		bulk := fs.String("bulk", "", "goblverif binary")
 		out := fs.String("out", "", "events ndjson")
+		cur := fs.String("cur", "", "file that always holds the input being processed")
 		fs.Parse(args)
+		crashCur = *cur
 		return crashRun(*repo, *plan, *seed, *capd, *nb, *bulk, *out)
+	})
+	// crash-one: the pipeline on one input (replay of an input that aborted the process)
+	register("crash-one", func(args []string) error {
+		fs := flag.NewFlagSet("crash-one", flag.ExitOnError)
+		file := fs.String("file", "", "input")
+		fs.Parse(args)
+		data, err := os.ReadFile(*file)
+		if err != nil {
+			return err
+		}
+		for _, st := range runPipeline(data) {
+			fmt.Printf("%s=%s %s\n", st.Op, st.Out, st.Msg)
+		}
+		return nil
 	})
 }
